@@ -88,6 +88,22 @@ def run(rep, idx, tier):
         call = rl[role][1]
         rep.check(kwarg(call, 'size') == want_size, "C14.2", cs, f"{role} occupies ceil(size / data_width) addresses",
                   f"size argument is {ir.show(kwarg(call, 'size') or ('const', None))}")
+    # placement: implicit (the map aligns each register itself), or an explicit address that is a multiple of 2**alignment
+    unit = ctor.parse("1 << alignment")
+    for role in ("enable", "pending"):
+        a_ = kwarg(rl[role][1], 'addr')
+        whatp = f"{role} is placed at an address the map accepts for every alignment"
+        if a_ is None or a_ in (('const', None), ('const', 0)):
+            rep.ok("C14.2", cs, whatp, "implicit placement" if a_ is None or a_ == ('const', None) else "address 0", nontrivial=False)
+        elif a_[0] == 'call' and a_[1] == ('name', 'max') and unit in a_[2] and len(a_[2]) == 2:
+            other = [x for x in a_[2] if x != unit][0]
+            rep.bad("C14.2", cs, whatp, f"addr={ir.show(a_)}: the larger of the register size and the alignment unit is not a multiple of the unit "
+                    f"when {ir.show(other)} exceeds it without being a multiple (3 words with alignment=1): add_resource() refuses the address "
+                    "and the constructor fails for those event counts")
+        elif a_[0] in ('nary', 'bin') and a_[1] in ('*', '<<') and any(x == unit or x == ('name', 'alignment') for x in ir.walk(a_)):
+            rep.ok("C14.2", cs, whatp, f"addr={ir.show(a_)}: a multiple of the alignment unit", nontrivial=False)
+        else:
+            rep.unk("C14.2", cs, whatp, f"addr={ir.show(a_)[:80]}: whether it is always a multiple of 2**alignment is not decided")
     rep.check(order == ["enable", "pending"], "C14.2", cs, "registers are placed in the order enable, pending",
               f"order is {order}")
     # both into the same map, which is the one given to the multiplexer and published
